@@ -394,6 +394,85 @@ func checkC18(w *World, r *Report) {
 		r.Check(strings.Join(callers, ",") == "yangDataChildren", "R18.10", "callers of Node.DefaultChildren", token.NoPos, "yangDataChildren only", "default children are enumerated in {"+strings.Join(callers, ",")+"}: outside yangDataChildren nothing tests whether a default belongs to the active or default case, so e.g. an absent non-presence container is created with the defaults of every case of a choice inside it")
 	})
 
+	r.Rule("R18.12", "members of a choice are left to the choice logic, whatever their kind: in checkMandatory a schema child is entered into the table of required children (the one the missing-node errors are produced from) only when isAChoice says it is not a choice member — a non-presence container of an inactive case must not be looked through", 1)
+	r.guard("R18.12", func() {
+		f := w.SSAFunc(w.Func("schema", "checkMandatory"))
+		if f == nil {
+			panic(undecided{"schema.checkMandatory"})
+		}
+		sym := NewSym(w)
+		// the table the errors are produced from: a map of nodes that is ranged over
+		ranged := map[ssa.Value]bool{}
+		for _, b := range f.Blocks {
+			for _, in := range b.Instrs {
+				if rg, ok := in.(*ssa.Range); ok {
+					ranged[rg.X] = true
+				}
+			}
+		}
+		n := 0
+		why := ""
+		for _, b := range f.Blocks {
+			for _, in := range b.Instrs {
+				mu, ok := in.(*ssa.MapUpdate)
+				if !ok || !ranged[mu.Map] {
+					continue
+				}
+				if mt, ok := mu.Map.Type().Underlying().(*types.Map); !ok || !strings.HasSuffix(mt.Elem().String(), "schema.Node") {
+					continue
+				}
+				n++
+				from := f.Blocks[0]
+				if l, in := loopOf(f, b); in {
+					from = l.Header
+				}
+				has := false
+				msg := pcImplies(sym.PathCond(from, b, nil), func(a *pcAtom) string {
+					if c, ok := a.v.(*ssa.Call); ok && c.Call.StaticCallee() != nil && nm(c.Call.StaticCallee()) == "isAChoice" {
+						has = true
+						return "member"
+					}
+					return ""
+				}, func(env map[string]bool) bool { return !env["member"] })
+				if !has || msg != "" {
+					why = "a child is entered although it may be a choice member (" + msg + ")"
+				}
+			}
+		}
+		if n == 0 {
+			panic(undecided{"checkMandatory: table of required children"})
+		}
+		r.Check(why == "", "R18.12", "checkMandatory leaves choice members to the choice logic", f.Pos(), "required[name] = n only under !isAChoice(schema, n)", why+": a mandatory node inside a non-presence container of an inactive case is reported missing")
+	})
+
+	r.Rule("R18.13", "a list's number of entries is always measured against min-/max-elements: validateListSchema and validateLeafListSchema (where they exist) reach CheckCardinality whatever the number of entries is — a list node that is present with no entries still has to meet min-elements", 1)
+	r.guard("R18.13", func() {
+		n := 0
+		for _, name := range []string{"validateListSchema", "validateLeafListSchema", "validateLeafSchema"} {
+			fo := w.tryFunc("schema", name)
+			if fo == nil {
+				continue
+			}
+			f := w.SSAFunc(fo)
+			sym := NewSym(w)
+			for _, b := range f.Blocks {
+				for _, in := range b.Instrs {
+					c, ok := in.(*ssa.Call)
+					if !ok || !c.Call.IsInvoke() || nm(c.Call.Method) != "CheckCardinality" {
+						continue
+					}
+					n++
+					cond := sym.PathCond(f.Blocks[0], b, nil)
+					uncond := !pcSat(pcNotF(cond))
+					r.Check(uncond, "R18.13", name+" checks the cardinality", c.Pos(), "CheckCardinality(path, number of entries) reached unconditionally", "the cardinality check is reached only when `"+cond.String()+"`: e.g. a list node with no entries skips it and its min-elements is enforced nowhere")
+				}
+			}
+		}
+		if n == 0 {
+			panic(undecided{"no CheckCardinality call in the list validators"})
+		}
+	})
+
 	r.Rule("R18.11", "the right node is asked: the choice-membership helpers receive (parent, child) and the configuration checker is asked about the case under examination resp. the choice and then the enclosing node — argument roles (parameter / loop element) at the six reviewed call sites", 6)
 	r.guard("R18.11", func() { c18ArgumentRoles(w, r) })
 
